@@ -183,6 +183,11 @@ def coq_make(target, timeout=1500):
     return rc, out
 
 # ----------------------------------------------------------------------------- proofs
+def ntheorems(pid):
+    """number of pinned theorems in Props/<pid>.v (for the descriptive texts)"""
+    try: return len(re.findall(r"(?m)^\s*Theorem\s", strip_comments(open(os.path.join(COQDIR, "Props", pid + ".v")).read())))
+    except OSError: return 0
+
 AXIOM_ALLOW = {
     "ClassicalDedekindReals.sig_forall_dec", "ClassicalDedekindReals.sig_not_dec",
     "FunctionalExtensionality.functional_extensionality_dep", "Classical_Prop.classic",
@@ -191,7 +196,23 @@ AXIOM_ALLOW = {
 PRIMS = set("float int opp abs add sub mul div sqrt eqb ltb leb compare classify of_uint63 of_int63 normfr_mantissa frshiftexp ldshiftexp next_up next_down "
             "lsl lsr land lor lxor mod mulc addc addcarryc subc subcarryc diveucl diveucl_21 addmuldiv head0 tail0 asr divs mods ltsb lesb compares "
             "float_spec_* uint63_spec_*".split())
+PRIM_TYPE = re.compile(r"^(?:\s|->|\*|\(|\)|\b(?:float|int|bool|comparison|float_class|Z|carry|Set|Type)\b)*$")
 FORBIDDEN = re.compile(r"\b(Admitted|admit|Axiom|Axioms|Parameter|Parameters|Conjecture|Unset\s+Guard|bypass_check|type-in-type|impredicative-set|Admit\s+Obligations)\b")
+
+def assumptions_outside_sections(src):
+    """Variable / Hypothesis / Context sentences that are not inside a Section (there they declare axioms).
+    src: comment-free text.  Returns the offending sentences."""
+    bad, stack = [], []
+    for m in re.finditer(r"(?ms)^\s*(?:(?:Local|Global|#\[[^\]]*\])\s+)*(Section|Module\s+Type|Module|End|Variables?|Hypothes[ie]s|Context)\b([^.]*?(?:\.[A-Za-z_][^.]*?)*)\.(?=\s|$)", src):
+        kw, rest = m.group(1), m.group(2)
+        if kw == "Section": stack.append("S")
+        elif kw.startswith("Module"):
+            if ":=" not in rest: stack.append("M")          # "Module X := Y." opens nothing
+        elif kw == "End":
+            if stack: stack.pop()
+        elif "S" not in stack:
+            bad.append(" ".join(m.group(0).split())[:100])
+    return bad
 
 def strip_comments(src):
     out, depth, i = [], 0, 0
@@ -267,10 +288,14 @@ def proof_step(pid, tier="quick"):
     res["files"] = [os.path.relpath(d, COQDIR) for d in deps]
     audit_ok = True
     for d in deps:
-        m = FORBIDDEN.search(strip_comments(open(d).read()))
+        txt = strip_comments(open(d).read())
+        m = FORBIDDEN.search(txt)
         if m:
             audit_ok = False
             res["errors"].append("forbidden construct %r in %s" % (m.group(0), os.path.relpath(d, COQDIR)))
+        for b in assumptions_outside_sections(txt):
+            audit_ok = False
+            res["errors"].append("assumption declared outside a section in %s: %s" % (os.path.relpath(d, COQDIR), b))
     # ask Coq for the assumptions of every property theorem, one marked block per theorem (a separate tiny file that
     # Requires the compiled property file, so Check/Example output of the property file cannot be confused with axioms)
     n_print = len(re.findall(r"Print\s+Assumptions\s+([A-Za-z0-9_']+)", src))
@@ -304,6 +329,11 @@ def proof_step(pid, tier="quick"):
         elif "Axioms:" in blk:
             body = blk.split("Axioms:", 1)[1]
             amap[nm] = re.findall(r"(?m)^([A-Za-z_][A-Za-z0-9_.']*)\s*(?::|$)", body)
+            # a bare primitive name is accepted only with a primitive's type (machine types and their results only)
+            for mm in re.finditer(r"(?ms)^([A-Za-z_][A-Za-z0-9_.']*)\s*:(.*?)(?=^[A-Za-z_][A-Za-z0-9_.']*\s*(?::|$)|\Z)", body):
+                a, ty = mm.group(1), mm.group(2)
+                if a in PRIMS and not PRIM_TYPE.match(ty):
+                    amap[nm].append("%s-with-non-primitive-type(%s)" % (a, " ".join(ty.split())[:80]))
     for nm in names:
         if nm not in amap:
             res["theorems"].append((nm, None, False))
@@ -326,7 +356,11 @@ def proof_step(pid, tier="quick"):
             axioms = [a.strip() for a in m.group(1).split("\n") if a.strip() and a.strip() != "<none>"]
             res["coqchk_axioms"] = axioms
             unsafe = [g.strip() for g in (m.group(2), m.group(3), m.group(4)) if g.strip() != "<none>"]
-            okax = all(any(a.endswith(x) or x in a for x in AXIOM_ALLOW) or a.startswith(("Coq.Floats", "Coq.Numbers.Cyclic.Int63", "Coq.Reals", "Flocq", "Coq.Logic")) for a in axioms)
+            # exactly the four named standard-library axioms, plus the kernel's primitive machine types/operations and
+            # their specification (declared by the standard library's Floats / Int63 files, nowhere else)
+            full = set(("Coq.Reals." if x.startswith("ClassicalDedekind") else "Coq.Logic.") + x for x in AXIOM_ALLOW)
+            okax = all(a in full or a.startswith(("Coq.Floats.FloatAxioms.", "Coq.Floats.PrimFloat.", "Coq.Numbers.Cyclic.Int63.PrimInt63.",
+                                                  "Coq.Numbers.Cyclic.Int63.Uint63.")) for a in axioms)
             if unsafe:
                 res["errors"].append("coqchk: development relies on disabled kernel checks: %s" % unsafe)
             elif not okax:
